@@ -410,7 +410,14 @@ Definition c19_fixed_bounds (p : toks) : bool :=
 
 Definition view_C19 (c : ctx) (items : list item) : view :=
   match x_input c, parts (x_input c) items with
-  | (InFn _ _ _ | InMod _ _ _ _ _ | InImpl _ _ _ _ _ _), Some (GFn _ _ im | GMod _ _ _ _ _ im _ _ | GImpl _ im) =>
+  | InImpl _ tp _ _ _ _, Some (GImpl _ im) =>
+      let p := first_param_toks (i_gen im) in
+      if is_prefix [TId "EntraitT"] p then
+        (* ... and the implemented trait is named by the very path the user wrote (an absolute path stays absolute) *)
+        decided (c19_bounds_ok [] p && c19_fixed_bounds p &&
+                 is_prefix tp (match i_trait im with Some x => x | None => [] end)) [p; tp]
+      else na
+  | (InFn _ _ _ | InMod _ _ _ _ _), Some (GFn _ _ im | GMod _ _ _ _ _ im _ _) =>
       let p := first_param_toks (i_gen im) in
       if is_prefix [TId "EntraitT"] p then
         decided (c19_bounds_ok [] p && c19_fixed_bounds p) [p]
